@@ -66,6 +66,20 @@ def tol_for(cfg, output="colr"):
     return compare.Tol(cfg.upem, output=output, tau_seg=tau, truetype=cfg.color_format.startswith("glyf"))
 
 
+def _cff_wrapped(font, glyph_name):
+    if not glyph_name:
+        return False
+    try:
+        from fontTools.pens.recordingPen import RecordingPen
+
+        pen = RecordingPen()
+        font.getGlyphSet()[glyph_name].draw(pen)
+        vals = [v for _, pts in pen.value for pt in pts for v in pt]
+        return any(abs(v - round(v)) > 1e-6 for v in vals) and any(abs(v) > 16000 for v in vals)
+    except Exception:
+        return False
+
+
 def check_colr_font(built, want_clip_check=True):
     """Every input of a COLR build: glyph reached from its codepoints paints what the source paints.
 
@@ -73,6 +87,16 @@ def check_colr_font(built, want_clip_check=True):
     cfg, font = built.cfg, built.font
     problems = []
     stats = {"glyphs": 0, "layers": 0, "gradient_layers": 0, "groups": 0, "max_h_over_eps": 0.0, "max_h": 0.0, "max_colour_excess": 0.0, "undecided_gradient_layers": 0, "transformed_layers": 0, "nontrivial_glyphs": 0}
+    if "COLR" not in font:
+        # legal only when no source paints anything that survives on the integer grid
+        for i, inp in enumerate(built.inputs):
+            if not inp.codepoints:
+                continue
+            ref, _ = ref_layers_for(built, i, cfg.width or cfg.upem)
+            if [l for l in ref if l.contours and not compare.negligible(l)]:
+                problems.append({"what": "source paints but the font has no COLR table", "input": i, "codepoints": list(inp.codepoints)})
+        stats["fonts_without_colr"] = 1
+        return problems, stats
     ev = colreval.Evaluator(font)
     tol = tol_for(cfg)
     for i, inp in enumerate(built.inputs):
@@ -100,8 +124,10 @@ def check_colr_font(built, want_clip_check=True):
         for p in pr:
             p.update({"input": i, "glyph": name, "codepoints": list(inp.codepoints)})
             rb = p.get("ref_bbox")
-            if rb and cfg.color_format.startswith("cff") and max(rb[2] - rb[0], rb[3] - rb[1]) > 32767:
-                # a contour spanning more than a Type 2 charstring operand can hold: the encoder wraps the delta
+            if rb and cfg.color_format.startswith("cff") and (max(rb[2] - rb[0], rb[3] - rb[1]) > 32767 or _cff_wrapped(font, p.get("got_ref"))):
+                # a contour spanning more than a Type 2 charstring operand can hold: the encoder wraps the delta (the
+                # stored outline - possibly a donor that this layer re-uses at a smaller scale - then carries
+                # fractional coordinates next to values beyond +-16000, which rounded CFF outlines never do)
                 p["mechanism"] = "F12-cff-charstring-delta-overflow"
         problems.extend(pr)
         stats["layers"] += len(ref)
